@@ -1,6 +1,9 @@
 (* C10 — split and splitn partition the text around the find_iter matches.
    [yields m_init l]: the iterator yields exactly the items l and then None. *)
 From FR Require Import Base Utf8 Api ApiProofs.
+From FR Require Import State Utf8Facts Chars Ast Analyze Sem SemSound Vm Compile Param ArrowA CompileCorrect KeepOut EndToEnd ApiVm.
+From Coq Require Import NArith Lia.
+
 
 Section C10.
 Variable tx : text.
@@ -58,9 +61,39 @@ Check C10_rebuild : forall tx search, SearchOK tx search -> (forall p f, search 
   forall l, yields tx search m_init l -> no_err l -> rebuild tx 0 l = tx.
 Check C10_count : forall tx l, no_err l -> length (pieces tx 0 l) = S (length l).
 
+
+(* ---- for the COMPILED search (Proofs/ApiVm.v): SearchOK is proved, not assumed ---- *)
+Theorem C10_vm_split_pieces : forall cs bs e p, VmScope cs bs e p ->
+  forall ng max_st limit fuelv,
+  (forall pos f, vsearch cs p ng max_st limit fuelv pos f <> SErr EFuel) ->
+  forall n, split_collect (concat cs) (vsearch cs p ng max_st limit fuelv) n sp_init = firstn n (pieces (concat cs) 0 (vm_matches cs p ng max_st limit fuelv)).
+Proof. intros cs bs e p (W & Hl & Hc & Ho & Hr & Hk) ng max_st limit fuelv Hnf n. eapply vm_split_pieces; eauto. Qed.
+
+Theorem C10_vm_rebuild : forall cs bs e p, VmScope cs bs e p ->
+  forall ng max_st limit fuelv,
+  (forall pos f, vsearch cs p ng max_st limit fuelv pos f <> SErr EFuel) ->
+  no_err (vm_matches cs p ng max_st limit fuelv) -> rebuild (concat cs) 0 (vm_matches cs p ng max_st limit fuelv) = (concat cs).
+Proof. intros cs bs e p (W & Hl & Hc & Ho & Hr & Hk) ng max_st limit fuelv Hnf Hne. eapply vm_split_rebuild; eauto. Qed.
+
+Theorem C10_vm_splitn : forall cs bs e p, VmScope cs bs e p ->
+  forall ng max_st limit fuelv,
+  (forall pos f, vsearch cs p ng max_st limit fuelv pos f <> SErr EFuel) ->
+  forall k n, no_err (vm_matches cs p ng max_st limit fuelv) ->
+  splitn_collect (concat cs) (vsearch cs p ng max_st limit fuelv) n {| sn_s := sp_init; sn_limit := k |} =
+  firstn n (match k with
+            | 0 => []
+            | S k' => firstn k' (pieces (concat cs) 0 (vm_matches cs p ng max_st limit fuelv)) ++
+                      (if k' <=? length (vm_matches cs p ng max_st limit fuelv)
+                       then [pc_slice (concat cs) (start_after (concat cs) 0 (vm_matches cs p ng max_st limit fuelv) k') (length (concat cs))] else [])
+            end).
+Proof. intros cs bs e p (W & Hl & Hc & Ho & Hr & Hk) ng max_st limit fuelv Hnf k n Hne. eapply vm_splitn; eauto. Qed.
+
 Print Assumptions C10_matches_exist.
 Print Assumptions C10_split_pieces.
 Print Assumptions C10_count.
 Print Assumptions C10_rebuild.
 Print Assumptions C10_split_safe.
 Print Assumptions C10_splitn.
+Print Assumptions C10_vm_split_pieces.
+Print Assumptions C10_vm_rebuild.
+Print Assumptions C10_vm_splitn.
